@@ -330,6 +330,16 @@ func (t *terminal) switchScreen() {
 	t.onAltScreen = !t.onAltScreen
 	size := t.screen().Size()
 	t.frontend.RegionChanged(Region{X: 0, Y: 0, X2: size.X, Y2: size.Y}, CRScreenSwitch)
+	t.announceScreen()
+}
+
+// announceScreen tells the frontend the cursor position and rendition of the
+// active buffer. Each buffer has its own, so the values last reported may
+// belong to the other one.
+func (t *terminal) announceScreen() {
+	pos := t.screen().CursorPos()
+	t.frontend.CursorMoved(pos.X, pos.Y)
+	t.frontend.StyleChanged(t.screen().Style())
 }
 
 // testHandleCommand is only for testing.
